@@ -7,9 +7,10 @@
      - [sections p]: the critical sections / calls of locking methods that a path executes, in order;
      - [atomic_path p]: nothing at all, or one call of a locking method of the own object, or exactly one
        critical section (a read section containing reads only);
-     - [multi_step]: the methods that are DECLARED to consist of several atomic steps, each with the exact
-       shape its paths may have (never a blanket exemption: any other shape of such a method is rejected
-       too), and for which the several-step behaviour is modelled below and proved in AtomicProofs.v;
+     - [multi_step]: the methods of the current sources that consist of several critical sections, each with
+       the exact shape its paths may have (never a blanket exemption: any other shape of such a method is
+       rejected too).  GetOrSet and Appends are legitimate: their several-step behaviour is modelled below
+       and proved in AtomicProofs.v.  MutexBucket.Len / Clear are a listed defect whose shape is pinned;
      - [step_ok m]: every path of m is atomic or has the shape declared for m.
    translate/c16locks generates [Lemma extracted_atomic_steps : forallb step_ok methods = true] from the
    current sources on every run.
@@ -100,11 +101,15 @@ Definition multi_step (typ name : string) : option (list sec -> bool) :=
                    | [] => false
                    end)
   else if String.eqb typ "MutexBucket" && String.eqb name "Len" then
-    (* one read-only section per bucket, each on the bucket's own lock: a sum of per-bucket snapshots, NOT a
-       snapshot of the whole map (documented finding; docs/C16-NOTES.md) *)
+    (* AS FOUND, not legitimate: one read-only section per bucket, each on the bucket's own lock — a sum of
+       per-bucket snapshots, NOT a snapshot of the whole map.  Open finding C16-mutexbucket-len-not-atomic
+       (known_findings.json), reproduced by the regular concurrent rounds of harness/cmd/c16conc.  The entry pins
+       the shape of the defect so that it is reported once (KNOWN-FINDING) and any other shape is a new broken
+       obligation; it claims nothing about atomicity (docs/C16-NOTES.md) *)
     Some (forallb (is_rsec "bucket"))
   else if String.eqb typ "MutexBucket" && String.eqb name "Clear" then
-    (* one write section per bucket: each bucket is cleared atomically, the map as a whole is not *)
+    (* AS FOUND, same open finding: one write section per bucket — each bucket is cleared atomically, the map
+       as a whole is not *)
     Some (forallb (is_wsec "bucket"))
   else None.
 
